@@ -491,6 +491,8 @@ Proof.
   rewrite (String.eqb_sym name "type_var"), (String.eqb_sym name "type_vars").
   destruct (String.eqb "get_generic_base" name) eqn:E1.
   { apply String.eqb_eq in E1. subst. reflexivity. }
+  destruct (String.eqb "_resolve_generic_base" name) eqn:E0.
+  { apply String.eqb_eq in E0. subst. reflexivity. }
   destruct (String.eqb "_get_types" name) eqn:E2.
   { apply String.eqb_eq in E2. subst. reflexivity. }
   destruct (String.eqb "type_var" name) eqn:E3; [reflexivity|].
@@ -528,7 +530,7 @@ Qed.
 (* ----- the theorem ------------------------------------------------------------------------------ *)
 
 Definition gdf_at (w : world) (k c : nat) (oc : option val) : outcome val :=
-  call_n P w no_ext (S (S (S (S k)))) "get_decorated_functions" [VInst c oc].
+  call_n P w no_ext (S (S (S (S (S k))))) "get_decorated_functions" [VInst c oc].
 
 Definition nd (m : mdef) : bool := negb (dunder (m_name m)).
 
@@ -663,11 +665,11 @@ Section Final.
   Definition looked_at (m : mdef) : bool := negb (skip w (m_name m)).
   Definition vals_of : list val := map (fun m => val_at w (m_name m)) (filter looked_at cd).
 
-  Lemma type_var_enum : call_n P w no_ext (S (S (S k))) "type_var" [VInst c oc] = Ok (VEnumCls ms).
+  Lemma type_var_enum : call_n P w no_ext (S (S (S (S k)))) "type_var" [VInst c oc] = Ok (VEnumCls ms).
   Proof. exact (tvar_binding w k c oc [e] [VEnumCls ms] Hb). Qed.
 
   Lemma HV_holds : forall name, In name (map fst (w_attrs w)) -> skip w name = false ->
-     get_attr P w (call_n P w no_ext (S (S (S k)))) (VInst c oc) name = Ok (val_at w name) /\
+     get_attr P w (call_n P w no_ext (S (S (S (S k))))) (VInst c oc) name = Ok (val_at w name) /\
      inert (val_at w name) = true.
   Proof.
     intros name Hin Hd. rewrite Hw, map_map in Hin. apply in_map_iff in Hin as (m & <- & Hm).
@@ -682,7 +684,7 @@ Section Final.
 
   Lemma gdf_value : gdf_at w k c oc = Ok (VDict (mkd ms (fun t => scan_t t vals_of []))).
   Proof.
-    unfold gdf_at. rewrite (gdf_run w k c oc ms (val_at w) Hms type_var_enum HV_holds).
+    unfold gdf_at. rewrite (gdf_run w (S k) c oc ms (val_at w) Hms type_var_enum HV_holds).
     do 2 f_equal. apply mkd_ext. intros t Ht.
     rewrite (scan_names w ms _ t (w_attrs w) _ Hms Ht), inner_of_vals. f_equal.
     unfold vals_of, looked_at. rewrite Hw, map_map. change (fun x => fst (entry_of x)) with m_name.
@@ -795,7 +797,7 @@ Lemma gdf_unparam : forall w k c ts, direct_generic w c ts -> gdf_at w k c None 
 Proof.
   intros w k c ts H. unfold gdf_at. rewrite call_S. cbn [assoc String.eqb Ascii.eqb Bool.eqb progs].
   unfold run_fundef. cbn.
-  replace (get_attr P w (call_n P w no_ext (S (S (S k)))) (VInst c None) "type_var")
+  replace (get_attr P w (call_n P w no_ext (S (S (S (S k))))) (VInst c None) "type_var")
     with (type_var_at w k c None) by reflexivity.
   now rewrite (tvar_unparam w k c ts H).
 Qed.
